@@ -10,7 +10,8 @@ child of a process that has never called glom, so caches and registry memos are 
                 each of its points in turn, B runs to completion, A resumes; both orders.
   hot-lines   : preemption bound 2 with points restricted to the functions that touch
                 process-wide state (Path.from_text, TargetRegistry lookups / registration).
-  calls       : (thorough) preemption bound 2 at function-entry granularity over all of glom/*.py.
+  calls       : preemption bound 2 at function-entry granularity over all of glom/*.py (no prior
+                knowledge of where shared state lives).
   reentrancy  : every nesting of depth <= 3 of "a callable inside a spec calls glom on a pool
                 entry", inner failures propagating or caught by the callable.
 Oracle: every call's outcome (value, or error class + scrubbed message / trace) equals its
@@ -391,11 +392,14 @@ def gen_hot(tier):
 
 
 def gen_calls(tier):
+    """preemption bound 2 at function-entry granularity over ALL of glom/*.py (no prior knowledge of which function holds shared state)"""
     cases = []
-    for i, j in PAIRS:
+    pairs = [(2, 3), (2, 2), (6, 6)] if tier == 'quick' else PAIRS
+    step = 3 if tier == 'quick' else 2
+    for i, j in pairs:
         na, nb = ALONE[('calls', i)][1], ALONE[('calls', j)][1]
-        for k1 in range(1, na + 1, 2):
-            for k2 in range(1, nb + 1, 2):
+        for k1 in range(1, na + 1, step):
+            for k2 in range(1, nb + 1, step):
                 cases.append(['calls', [i, j], [0, 1, 0, 1], [[k1], [k2]]])
     return cases
 
@@ -529,10 +533,10 @@ def subs(tier, only=None):
             rule='case = (chain of <= 3 pool entries, inner failures caught or propagating): a callable inside the running call re-enters glom before and after the pool spec',
             min_nontrivial=100, min_outcomes=2, required_tags=['depth2', 'depth3', 'catch', 'propagate'], case_timeout=120),
     ]
-    if tier != 'quick':
-        out.append(Sub('calls', gen_calls(tier), run_segments,
-                       rule='preemption bound 2 at function-entry granularity over all of glom/*.py for 12 pairs', min_nontrivial=1000, min_outcomes=2,
-                       required_tags=['calls'], case_timeout=120))
+    out.append(Sub('calls', gen_calls(tier), run_segments,
+                   rule='case = (pair, k1, k2): preemption bound 2 at function-entry granularity over all of glom/*.py (quick: the pairs sharing one spec '
+                        'object, every 3rd entry; thorough: 12 pairs, every 2nd)', min_nontrivial=1000, min_outcomes=2,
+                   required_tags=['calls'], case_timeout=120))
     return [s for s in out if only in (None, s.name)]
 
 
